@@ -20,6 +20,13 @@ REG = {
    "Rocq/Coq proof over a Gallina model of the codec + vm_compute correspondence against /repo",
    "Round trip is proved for the stage listed in the evidence; beyond it the property rests on the correspondence and the search. "
    "Known findings F01 (pinned by a test) is reported as KNOWN-FINDING. Decimal REAL and non-ASCII UTF-8/16/32 validity are outside the model."),
+ 'C02': (True,
+   "The three decoders are one Coq decoder model parameterised by dispatch tables regenerated from /repo; a computed table fact shows "
+   "DER entries only add rejections to CER entries and CER to BER (decoders-agree by refinement of tables); the encoder's fixed "
+   "CER/DER modes are table facts; the five (encoder, decoder) pairs and decoder agreement on DER/CER/BER-only encodings are checked by "
+   "differential execution in Coq and an implementation-level search with shrinking.",
+   "Rocq/Coq proof by computation over regenerated tables + model/implementation correspondence (vm_compute)",
+   "The full statement dec d (enc DER T v) = v over the universe is staged (see C01); known findings F01, F24 (both pinned by tests)."),
  'C03': (True,
    "An independent X.690 reference written in Coq from the standard (Spec/X690.v: DER/CER as functions, a BER TLV-tree reader) is "
    "evaluated by vm_compute against the implementation's DER/CER bytes (byte identity) and BER/CER outputs (same abstract value); "
@@ -27,6 +34,27 @@ REG = {
    "Rocq/Coq: independent executable X.690 specification evaluated in the kernel's VM + equivalence lemmas (induction on digit recursion)",
    "The byte-identity theorem enc DER = X690.der over the whole universe is proved only for the header layer so far; the rest is decided "
    "per input by evaluating the reference. Known findings F01, F24 (pinned), F35."),
+ 'C05': (True,
+   "Generic Coq theorems over interaction trees: any decoder using only all-or-nothing re-tryable reads, tell/seek-back/mark and the "
+   "end-of-stream test yields under every well-formed arrival schedule exactly the complete run's result after some underrun reports "
+   "(induction on the schedule; simulation lemmas by induction on the tree), underrun only while bytes are missing; instantiated for the "
+   "model of StreamingDecoder.__iter__ for every codec/fuel/guiding type. Tied to /repo by all 2^(n-1) partitions of short streams, sampled "
+   "schedules with polls/short reads/late close on seekable and non-seekable doubles, compared with `drive` evaluated in Coq.",
+   "Rocq/Coq proof (simulation + induction over schedules and interaction trees) + vm_compute correspondence against /repo",
+   "The instance for the decoder is conditional on the complete run not reaching ReadAll (reachable only via malformed string fragments); "
+   "the Python generator protocol is abstracted as resumption of a tree; BytesIO subclasses that grow are outside (fast path)."),
+ 'C06': (True,
+   "Generic Coq theorems: a decoder that never observes the end of its input and decodes e treats every proper prefix on a closed stream "
+   "as the end-of-stream error and suspends on an open one; instantiated for the decoder model (any codec/fuel/type) under a computable "
+   "cleanliness condition on the complete run; exception lattice facts from regenerated tables. Tied to /repo by every cut point of "
+   "generated encodings in three presentations, with and without guiding type.",
+   "Rocq/Coq proof (induction over interaction trees) + vm_compute correspondence against /repo",
+   "Conditional on the run of the complete encoding being clean (no AtEOS/ReadAll), evaluated per case."),
+ 'C07': (True,
+   "Generic Coq theorem: a clean decoder returns the same value whatever follows, stops at the same position, tail untouched; instance "
+   "for the decoder model; tied to /repo by encodings x tails {empty, zeros, another encoding, garbage} and streams of n encodings with positions.",
+   "Rocq/Coq proof (induction over interaction trees) + vm_compute correspondence against /repo",
+   "Known finding F01 (encoder appends a stray end-of-octets, pinned by a test)."),
  'C11': (True,
    "Coq state-machine model of CachingStreamWrapper and of an abstract seekable stream; refinement theorem for every permitted "
    "operation history (induction on the history) for the repaired wrapper and, excluding the F06 class, for the code as it is; "
